@@ -9,11 +9,11 @@ ExpectRow(v, k) == IF Has(v, "pads") THEN ShiftRow(SnpRow(v.ref, v.qs[k], v.hard
 (* ---- C13 on snps: aggregate = per-sequence results, counted --------------- *)
 (* rows: the expected per-sequence rows (forced with TLCEval: TLC would otherwise *)
 (* re-evaluate the lazy function at every application).                          *)
-AggOK(rows, n, thr, agg) ==
+AggOK(v, rows, n, thr, agg) ==
   LET sets == TLCEval([k \in 1..n |-> {rows[k][j] : j \in 1..Len(rows[k])}])
       all  == TLCEval(UNION {sets[k] : k \in 1..n})
       cnt(s) == Cardinality({k \in 1..n : s \in sets[k]})
-      kept == TLCEval({s \in all : cnt(s) * 1000 >= thr * n})
+      kept == TLCEval({s \in all : IF Has(v, "thr9") THEN Floor9(cnt(s), n) >= v.thr9 ELSE cnt(s) * 1000 >= thr * n})
   IN /\ {agg[i].snp : i \in 1..Len(agg)} = kept
      /\ Len(agg) = Cardinality(kept)
      /\ \A i \in 1..Len(agg) : agg[i].snp \in kept => agg[i].freq = Dec9(cnt(agg[i].snp), n)
@@ -30,7 +30,7 @@ Failed(o) ==
     \cup (IF Len(r) = Len(v.qs) /\ \A k \in 1..Len(r) : r[k].snps = rows[k] THEN {} ELSE {"snp-row"})
     \cup (IF v.thr < 0 THEN {}
           ELSE (IF o.obs.aerr = "" /\ o.obs.aheader = "SNP,frequency" THEN {} ELSE {"agg-error"})
-               \cup (IF AggOK(rows, Len(v.qs), v.thr, o.obs.agg) THEN {} ELSE {"aggregate"})
+               \cup (IF AggOK(v, rows, Len(v.qs), v.thr, o.obs.agg) THEN {} ELSE {"aggregate"})
                \cup (IF CliBadAt(o.obs, "agg_") THEN {"agg-cli-wiring"} ELSE {}))
 
 Init == l = 1 /\ nbad = 0
